@@ -133,7 +133,7 @@ def build_kwargs(problem, cfg, trace, hooks=None, checkpoint=None, x0=None):
     maxfun, ftol, gtol, gtol_callable, ftarget, ftarget_callable, eps,
     finite_diff_rel_step, iprint, logger (bool), scaler (None|float|'packaged'),
     cb (None|'never'|int k => stop at the k-th call), explicit_scale (float: objective
-    and gradient multiplied by it inside the closures), ufd (None|'identity')
+    and gradient multiplied by it inside the closures), ufd (None|'identity'), x0_dtype (numpy dtype name of the start vector)
     hooks: dict of callables: on_f(i, x), on_g(i, x), on_cb(i, xk, state) -> may raise /
     act; 'ufd' -> the update function to use.
     """
@@ -195,6 +195,12 @@ def build_kwargs(problem, cfg, trace, hooks=None, checkpoint=None, x0=None):
         kw["x0"] = x0  # the caller's own array (e.g. previous_result.x), not a copy
     else:
         kw["x0"] = np.array(P.x0 if x0 is None else x0, dtype=float, copy=True)
+        if cfg.get("x0_dtype"):
+            lo = kw["x0"].astype(cfg["x0_dtype"])  # a start vector in single / half precision, rounded towards the inside of the box
+            inf = np.array(np.inf, dtype=lo.dtype)
+            lo = np.where(lo < P.lb, np.nextafter(lo, inf), lo)
+            lo = np.where(lo > P.ub, np.nextafter(lo, -inf), lo)
+            kw["x0"] = lo.astype(cfg["x0_dtype"])
     kw["bounds"] = hooks["bounds_obj"] if "bounds_obj" in hooks else P.bounds.copy()
     for k in ("maxcor", "maxls", "maxiter", "maxfun", "ftol", "eps", "finite_diff_rel_step", "iprint",
               "ftol_linesearch", "gtol_linesearch", "xtol_linesearch", "eps_SY", "max_steplength"):
